@@ -548,7 +548,7 @@ def run(ctx):
                 report_violation(ctx, exe, h, why)
                 break
         ctx.cov['deep_search_histories'] = len(deep)
-    if (ctx.broken or ctx.tier == 'thorough') and not ctx.violations:
+    if not ctx.violations:       # rings up to 200 003 bytes every time (index-width bugs in locals are invisible to tie S); > 2^32 bytes only when something broke
         seq_search(ctx, long_run=bool(ctx.broken))
     ctx.cov['traces_validated_against_impl'] = agreed
     ctx.cov['histories_run'] = total
